@@ -1,10 +1,10 @@
 """C03 - matrix algebra: product, transpose, determinant and inverse are the true ones.
 
- * woven FD contracts (all entry bit patterns, Mat3A with symbolic hidden lanes):
+ * full-domain obligations (all entry bit patterns, Mat3A with symbolic hidden lanes):
      mul_vecN   : each result lane is the sum over c of entry(r,c)*v[c], single-rounded products
-                  summed in any association order (tree_in)            [cvc5]
-     add_mat / sub_mat / mul_scalar / div_scalar : entry-wise primitive [cvc5]
-     unary minus: entry-wise negation                                   [SAT]
+                  summed in any association order (tree_in, fast path + fallback)   [cvc5]
+     add_mat / sub_mat / mul_scalar / div_scalar / unary minus: column c of the result is the vector
+                  operator applied to column c (primitive arithmetic uninterpreted)  [SAT]
  * forwarding lemmas (plain crate, primitive arithmetic uninterpreted): every operator form equals
    the named method, and column c of A*B is A.mul_vec(B.col(c)) - so the product law follows from the
    mul_vec contract.
@@ -26,12 +26,12 @@ MULVEC = {"Mat2": [("mul_vec2", "Vec2")], "Mat3": [("mul_vec3", "Vec3"), ("mul_v
 MUF = """
 pub mod {mod} {{
     use glam::*; use crate::mk::*;
-    static mut T_MM: MemoK<{N}> = MemoK::new(<{N}>::ZERO);
-    static mut T_MV: MemoK<{V}> = MemoK::new(<{V}>::ZERO);
-    static mut T_ADD: MemoK<{N}> = MemoK::new(<{N}>::ZERO);
-    static mut T_SUB: MemoK<{N}> = MemoK::new(<{N}>::ZERO);
-    static mut T_MS: MemoK<{N}> = MemoK::new(<{N}>::ZERO);
-    static mut T_DS: MemoK<{N}> = MemoK::new(<{N}>::ZERO);
+    static mut T_MM: MemoK<{N}, 3> = MemoK::new(<{N}>::ZERO);
+    static mut T_MV: MemoK<{V}, 8> = MemoK::new(<{V}>::ZERO);
+    static mut T_ADD: MemoK<{N}, 3> = MemoK::new(<{N}>::ZERO);
+    static mut T_SUB: MemoK<{N}, 3> = MemoK::new(<{N}>::ZERO);
+    static mut T_MS: MemoK<{N}, 4> = MemoK::new(<{N}>::ZERO);
+    static mut T_DS: MemoK<{N}, 3> = MemoK::new(<{N}>::ZERO);
     pub fn mul_mat(a: &{N}, b: &{N}) -> {N} {{ unsafe {{ T_MM.get(kcat(a.mbits(), b.mbits(), [0; 4]), mk()) }} }}
     pub fn mul_vec(a: &{N}, v: {V}) -> {V} {{ unsafe {{ T_MV.get(kcat(a.mbits(), [0; 16], v.words()), mk()) }} }}
     pub fn add_mat(a: &{N}, b: &{N}) -> {N} {{ unsafe {{ T_ADD.get(kcat(a.mbits(), b.mbits(), [0; 4]), mk()) }} }}
@@ -72,22 +72,16 @@ def build(config, tier):
             obs.extend(core.tree_obs("%s_%s" % (pre, meth), PROP, "let a = mk::<%s>(); let x = mk::<%s>(); let m = a.to_cols_array(); let v = x.to_array(); let r = a.%s(x).to_array();" % (N, V, meth), lanes, w,
                                      fn="%s::%s" % (N, meth), tier="quick" if (M.simd or n < 4) else "thorough",
                                      desc="%s::%s lane r == sum_c entry(r,c)*v[c] (single-rounded products, any association order), full domain" % (N, meth)))
-        for (meth, sym, rhs_t, rhs_ctor, form) in (("add_mat%d" % n, "+", "&" + N, "mk::<%s>()" % N, "mm"), ("sub_mat%d" % n, "-", "&" + N, "mk::<%s>()" % N, "mm"),
-                                                   ("mul_scalar", "*", t, "vk::any::<%s>()" % t, "ms"), ("div_scalar", "/", t, "vk::any::<%s>()" % t, "ms")):
-            if form == "mm":
-                ens = " && ".join("__verif::leq%d(r.to_cols_array()[%d], self.to_cols_array()[%d] %s rhs.to_cols_array()[%d])" % (w, i, i, sym, i) for i in range(NN))
-                call = "self_.%s(&rhs)" % meth
-            else:
-                ens = " && ".join("__verif::leq%d(r.to_cols_array()[%d], self.to_cols_array()[%d] %s rhs)" % (w, i, i, sym) for i in range(NN))
-                call = "self_.%s(rhs)" % meth
-            c = Contract("glam::%s::%s" % (N, meth), f, "impl %s" % N, meth, ensures="|r: &%s| %s" % (N, ens), props=[PROP])
-            contracts.append(c)
-            obs.extend(contract_ob("%s_%s" % (pre, meth), PROP, c, [("self", "mk::<%s>()" % N), ("rhs", rhs_ctor)], call, solver="cvc5", stubs=["sse"], cls="lane",
-                                   tier="quick" if (M.simd or n < 4) else "thorough", desc="%s::%s entry == a %s b, full domain" % (N, meth, sym)))
-        c = Contract("<glam::%s as core::ops::Neg>::neg" % N, f, "impl Neg for %s" % N, "neg",
-                     ensures="|r: &%s| %s" % (N, " && ".join("__verif::leq%d(r.to_cols_array()[%d], -self.to_cols_array()[%d])" % (w, i, i) for i in range(NN))), props=[PROP])
-        contracts.append(c)
-        obs.extend(contract_ob("%s_neg" % pre, PROP, c, [("self", "mk::<%s>()" % N)], "-self_", solver="cadical", stubs=["sse"], cls="lane", desc="-%s entry == -a" % N))
+        # add / sub / scalar * / scalar / / unary minus: column c of the result is the VECTOR operation on column c
+        # (primitive arithmetic uninterpreted, plain crate) - entry-wise semantics then follow from the C01 lane
+        # contracts of the vector operators
+        cw = ["let a = mk::<%s>(); let b = mk::<%s>(); let s: %s = vk::any();" % (N, N, t)]
+        for c_ in range(n):
+            cw.append('check!(mk::same(a.add_mat%d(&b).col(%d), a.col(%d) + b.col(%d)) && mk::same(a.sub_mat%d(&b).col(%d), a.col(%d) - b.col(%d)), "add/sub column %d");' % (n, c_, c_, c_, n, c_, c_, c_, c_))
+            cw.append('check!(mk::same(a.mul_scalar(s).col(%d), a.col(%d) * s) && mk::same(a.div_scalar(s).col(%d), a.col(%d) / s) && mk::same((-a).col(%d), -a.col(%d)), "scalar ops / negation column %d");' % (c_, c_, c_, c_, c_, c_, c_))
+        obs.append(Ob("%s_columnwise_ops" % pre, PROP, "\n    ".join(cw), fn="%s::add_mat/sub_mat/mul_scalar/div_scalar/neg" % N, kind="lemma", solver="cadical",
+                      stubs=["sse_uf", "arith_uf%d" % w], plain=True, clauses=2 * n, cls="forwarding",
+                      desc="%s: add_mat, sub_mat, mul_scalar, div_scalar and unary minus act column by column as the vector operators (bit-for-bit, primitive arithmetic uninterpreted); entry-wise semantics follow from the C01 vector contracts" % N))
         # ---- forwarding: operators == named methods, A*B column-wise through mul_vec.  The named methods
         # are replaced by uninterpreted functions of the operand bits (plain crate: no woven contracts)
         mv = [m_ for (m_, V_) in MULVEC[N] if V_ == M.col][0]
